@@ -2,14 +2,13 @@
     Proved on the model (Simp.v, tied to expression_helper.py by exact-tree correspondence):
       (fixpoint)   for ALL trees, every result of the simplifier is a fixpoint of its own rewriting step at the root: applying
                    _expr_simp once more returns an == expression;
-      (idempotent) on well-formed trees (SimpProofs.wf, fragments 1-5 — concatenations included: constants, identifiers, memory cells, conditionals,
-                   + * ^ & | -, slices, shifts, ==, parity, concatenations; the identifier predicate determines is_term, as every name signature does)
+      (idempotent) on well-formed trees (SimpProofs.wf — everything C05 covers, concatenations and rotations included; the identifier predicate determines is_term, as every name signature does)
                    the result is a DEEP normal form — every node of it is returned unchanged by the rewriting step — and
                    simplifying it again returns the IDENTICAL tree, whatever the fuel;
       (order)      the canonical ordering of operands is a permutation of its input whatever the input order (so no operand is
                    lost or duplicated by sorting), and on well-formed trees operand order does not influence the VALUE of the result;
       (fuel)       two successful runs of the model return the same tree whatever their fuel.
-    NOT proved: idempotence outside the well-formed fragment (rotates, ill-typed trees),
+    NOT proved: idempotence outside the well-formedness predicate (ill-typed trees),
     that permuted or re-associated operand lists give the IDENTICAL tree (needs injectivity of key_expr on the operands, which
     fails across widths), and independence from PYTHONHASHSEED (a property of the implementation's dict/set iteration):
     these are decided by runs of the implementation (harness/p_c13.py: second pass, all permutations / re-associations of up to
